@@ -43,7 +43,38 @@ def run(prog, an, rep):
                              basic_auth_table, put_job_callers,
                              repository_identity, validation_before_job,
                              branch_grammar, validated_params_win,
-                             json_settings_note])
+                             body_is_parsed, json_settings_note])
+
+
+def body_is_parsed(prog, an, rep):
+    """A request whose body cannot be read as JSON is refused (Flask's
+    get_json answers 400): with silent=True it would be accepted and the
+    job built from the URL parameters alone, without what the caller asked
+    for in the body."""
+    R = 'C14.ARG.body-parsed'
+    n = 0
+    for f in prog.all_funcs():
+        if not f.module.name.startswith(SRV):
+            continue
+        for call in prog.calls_in(f):
+            if isinstance(call.func, ast.Attribute) and \
+                    call.func.attr == 'get_json':
+                n += 1
+                rep.evaluated()
+                silent = kw(call, 'silent')
+                if silent is None and len(call.args) > 1:
+                    silent = call.args[1]
+                rep.check(silent is None or is_const(silent, False), R,
+                          f.qname + ': an unreadable body is an error',
+                          f.where(call), 'get_json(silent=%s): a request '
+                          'with a malformed body is accepted and enqueued '
+                          'without its body' % src(silent)
+                          if silent is not None else '')
+            if isinstance(call.func, ast.Attribute) and \
+                    src(call.func) in ('json.loads', 'flask.json.loads') and \
+                    any(src(a).startswith('request.') for a in call.args):
+                n += 1
+    rep.floor('C14 request bodies read in the server', n, 1)
 
 
 def validated_params_win(prog, an, rep):
